@@ -653,7 +653,11 @@ def _solver(ctx, model):
     for i, st in enumerate(body):
         if isinstance(st, ast.If) and st.body and isinstance(st.body[0],
                                                                ast.Raise):
-            guards.append((i, st.test))
+            # `if a or b: raise` refuses under a and under b
+            tests = st.test.values if isinstance(st.test, ast.BoolOp) and \
+                isinstance(st.test.op, ast.Or) else [st.test]
+            for t_ in tests:
+                guards.append((i, t_))
     divs = []
     for i, st in enumerate(body):
         for n_ in ast.walk(st):
@@ -701,13 +705,21 @@ def _solver(ctx, model):
                          if isinstance(n_, ast.Name)}
             # names unpacked from a where()-result
             for k, st in enumerate(body[:i]):
+                src_name = None
                 if isinstance(st, ast.Assign) and isinstance(
                         st.targets[0], ast.Tuple) and len(
                         st.targets[0].elts) == 1 and isinstance(
                         st.targets[0].elts[0], ast.Name) and \
                         st.targets[0].elts[0].id in idx_names and \
                         isinstance(st.value, ast.Name):
-                    src_name = st.value.id
+                    src_name = st.value.id            # (row,) = rows
+                elif isinstance(st, ast.Assign) and isinstance(
+                        st.targets[0], ast.Name) and \
+                        st.targets[0].id in idx_names and isinstance(
+                        st.value, ast.Subscript) and isinstance(
+                        st.value.value, ast.Name) and U(st.value.slice) == "0":
+                    src_name = st.value.value.id      # row = rows[0]
+                if src_name is not None:
                     for gi, t in guards:
                         if gi < k and U(t) == f"len({src_name})!=1":
                             unique = True
